@@ -169,13 +169,20 @@ class _FileProxy:
 
 
 class FaultyRaw(io.RawIOBase):
-    """fault: None or {'offset': N, 'errno': 'ENOSPC', 'persistent': bool, 'short': bool}"""
+    """fault: None or {'offset': N, 'errno': 'ENOSPC', 'persistent': bool, 'short': bool}
+
+    Backed by a real (anonymous, in-memory) file descriptor so that code which works on
+    `stream.fileno()` - e.g. the documented SIGPIPE recipe `os.dup2(devnull, sys.stdout.fileno())` -
+    behaves as it would on a real stream: bytes written after such a redirection are lost.
+    """
 
     def __init__(self, name, fault=None):
         io.RawIOBase.__init__(self)
         self.name_ = name
         self.fault = dict(fault) if fault else None
-        self.data = bytearray()
+        self._fd = os.memfd_create('hplsim_' + name)
+        self._keep = os.dup(self._fd)  # survives a dup2() over the public descriptor
+        self.accepted = 0
         self.fired = 0
         self.write_calls = 0
         self._armed = fault is not None
@@ -183,25 +190,45 @@ class FaultyRaw(io.RawIOBase):
     def writable(self):
         return True
 
+    def fileno(self):
+        return self._fd
+
+    def isatty(self):
+        return False
+
     def write(self, b):
         self.write_calls += 1
         b = bytes(b)
         if self._armed:
-            room = self.fault['offset'] - len(self.data)
+            room = self.fault['offset'] - self.accepted
             if room > 0 and len(b) > room and self.fault.get('short', False):
                 # short write: accept what fits; the caller's next write hits the fault
-                self.data += b[:room]
+                os.write(self._fd, b[:room])
+                self.accepted += room
                 return room
             if room <= 0 or len(b) > room:
                 self.fired += 1
                 if not self.fault.get('persistent', True):
                     self._armed = False
                 raise _oserror(self.fault['errno'])
-        self.data += b
+        os.write(self._fd, b)
+        self.accepted += len(b)
         return len(b)
+
+    @property
+    def data(self):
+        size = os.fstat(self._keep).st_size
+        return os.pread(self._keep, size, 0) if size else b''
 
     def text(self):
         return self.data.decode('utf-8', errors='replace')
+
+    def release(self):
+        for fd in (self._fd, self._keep):
+            try:
+                os.close(fd)
+            except OSError:
+                pass
 
 
 def make_stream(raw, buffer_size=8192, line_buffering=False):
@@ -219,7 +246,7 @@ def make_stream(raw, buffer_size=8192, line_buffering=False):
 
 
 class ProcessResult:
-    __slots__ = ('status', 'stdout', 'stderr', 'handler', 'uncaught', 'flush_failed')
+    __slots__ = ('status', 'stdout', 'stderr', 'handler', 'uncaught', 'flush_failed', 'out_bytes', 'err_bytes')
 
     def __init__(self):
         self.status = None
@@ -270,12 +297,16 @@ def run_process(main, argv, out_raw, err_raw, out_buffer=8192, err_line_buffered
     res.status = status
     res.stdout = out_raw.text()
     res.stderr = err_raw.text()
+    res.out_bytes = len(out_raw.data)
+    res.err_bytes = len(err_raw.data)
     # detach without flushing again
     for st in (new_out, new_err):
         try:
             st.detach()
         except BaseException:
             pass
+    out_raw.release()
+    err_raw.release()
     return res
 
 
